@@ -54,7 +54,7 @@ def rand_payload(rng, for_append=False, allow_undef=False):
         return "r" + rng.choice(REALS)
     if r < 0.64:
         return "f" + rng.choice(FLOAT_REALS)
-    v = rng.choice("abef" if for_append else "abcdef")
+    v = rng.choice("abef" if for_append else "abcdefg")
     return "s" + v + units(rng.choice(STRS))
 
 
@@ -113,7 +113,7 @@ class PtrGraph:
         self.pts[t] = set()
 
 
-def rand_op(rng, g, allow_group=True):
+def rand_op(rng, g, allow_group=True, allow_cop=True):
     """One random operation (string) respecting the pointer-cycle and aliasing rules."""
     for _ in range(50):
         r = rng.random()
@@ -147,6 +147,8 @@ def rand_op(rng, g, allow_group=True):
                 return "rsv %s %d %d" % (t, rng.choice([2, 3]), rng.choice([0, 1, 2, 3, 5]))
             if q < 0.45:
                 return "clr %s" % t
+            if q < 0.6:
+                return "tyc %s %d" % (t, rng.choice([0, 2, 3, 4, 5, 6, 7, 8, 9, 10]))
             return "typ %s %d" % (t, rng.choice([0, 2, 3, 4, 5, 6, 7, 8, 9, 10, 1, 11]))
         if r < 0.66:
             if rng.random() < 0.2:
@@ -175,6 +177,9 @@ def rand_op(rng, g, allow_group=True):
             return "grp %d %s %s" % (tr, s, units(rand_key(rng)))
         # (a two-operand operation may be skipped when its source is absent: the target's old pointers stay)
         g.transfer(tr, sr)
+        if allow_cop and rng.random() < 0.25:
+            # a container-typed overload with the container of another root (aliasing forms: alias_cases)
+            return "cop %s %s %s %s" % (rng.choice(["ac", "am", "pc", "pm", "cc", "cm"]), rng.choice("oas"), t, s)
         if op == "inm":
             return "inm %s %s %s" % (t, units(rand_key(rng)), s)
         return "%s %s %s %s" % (op, t, s, rng.choice("ab"))
@@ -188,6 +193,68 @@ def rand_sequence(rng, n_ops):
 
 def line_of(ops, roots=None, cmd="valseq"):
     return cmd + (" @" + roots if roots else "") + " " + " ; ".join(ops)
+
+
+# ---------------------------------------------------------------------------------------------
+# container-typed overloads with the container taken from inside the same root (aliasing)
+
+ALIAS_TEMPLATES = {
+    "O": (["set 0/ka97/ka120 n1", "set 0/ka98/ia0 n1", "set 0/ka98/ia1 n2", "set 0/ka99 sa115.116", "set 0/ka100/ka121 T"],
+          {"0": "o", "0/ka97": "o", "0/ka98": "a", "0/ka99": "s", "0/ka100": "o", "0/ka97/ka120": "n", "0/ka98/ia0": "n",
+           "0/ka101": "new", "0/ka97/ka122": "new"}),
+    "A": (["set 0/ia0/ka120 n1", "set 0/ia1/ia0 n1", "set 0/ia1/ia1 n2", "set 0/ia2 sa115.116", "set 0/ia3/ka121 T"],
+          {"0": "a", "0/ia0": "o", "0/ia1": "a", "0/ia2": "s", "0/ia3": "o", "0/ia0/ka120": "n", "0/ia1/ia0": "n", "0/ia4": "new",
+           "0/ia1/ia3": "new"}),
+    # with removed members / holes and a full table, so that the destination subscript rebuilds the parent first
+    "R": (["set 0/ka97/ka120 n1", "set 0/ka98/ia2 n2", "set 0/ka99 sa-", "set 0/ka100 n1", "rem 0 100 a", "rmi 0/ka98 2 a"],
+          {"0": "o", "0/ka97": "o", "0/ka98": "a", "0/ka99": "s", "0/ka101": "new", "0/ka97/ka120": "n"}),
+}
+
+# `&&` overloads whose operand is owned by a descendant of the destination read the operand after the destination
+# released (reset()) or reallocated (growing array / table) it: heap-use-after-free on the unchanged library,
+# notes/fix-container-rvalue-aliasing.diff.  Excluded until that repair lands (then set this to True).
+import os as _os
+INCLUDE_RVALUE_DESCENDANT = _os.environ.get("VERIF_VALUE_RVALUE_DESCENDANT", "1") == "1"
+
+
+def alias_relation(d, s):
+    if d == s:
+        return "self"
+    if s.startswith(d + "/"):
+        return "src-in-dst"
+    if d.startswith(s + "/"):
+        return "dst-in-src"
+    return "sibling"
+
+
+def alias_allowed(form, rel):
+    if form in ("ac", "pc", "cc"):
+        return True                      # const& overloads: every relation (value semantics)
+    if rel == "self":
+        return False                     # self move: the operand is the destination's own storage (unspecified)
+    if rel == "dst-in-src":
+        return False                     # moving an ancestor's container into its own descendant has no meaning
+    if rel == "src-in-dst":
+        return form == "cm" or INCLUDE_RVALUE_DESCENDANT
+    return True
+
+
+def alias_cases(rng=None):
+    """op lists: a template, one container-typed overload whose operand lives in the same root, a follow-up."""
+    out = []
+    for name, (tmpl, nodes) in ALIAS_TEMPLATES.items():
+        for form in ("ac", "am", "pc", "pm", "cc", "cm"):
+            for kind in "oas":
+                for s, k in nodes.items():
+                    if k != kind:
+                        continue
+                    for d in nodes:
+                        if not alias_allowed(form, alias_relation(d, s)):
+                            continue
+                        op = "cop %s %s %s %s" % (form, kind, d, s)
+                        out.append(tmpl + [op])
+                        out.append(tmpl + [op, "cmp 0", "set %s n7" % d])
+    return out
 
 
 # ---------------------------------------------------------------------------------------------
